@@ -138,6 +138,8 @@ static int _GD_SampIndDoOpen(int fdin, struct gd_raw_file_ *file,
     return -1;
   }
 
+  memset(f, 0, sizeof(struct gd_siedata));
+
   if (!(mode & GD_FILE_WRITE)) {
     f->header = _GD_SampIndDiscardHeader(stream);
     if (f->header < 0) {
@@ -148,7 +150,6 @@ static int _GD_SampIndDoOpen(int fdin, struct gd_raw_file_ *file,
   } else
     f->header = 0;
 
-  memset(f, 0, sizeof(struct gd_siedata));
   f->r = f->s = f->p = f->d[0] = -1;
   f->fp = stream;
   f->swap = swap;
